@@ -140,6 +140,14 @@ partial def checkWFs (n : Nat) (vt : Sdd.VTree) : CT → Option String
     | none => es.findSome? fun (p, s) => (checkWFs n vt p).orElse fun _ => checkWFs n vt s
   | _ => none
 
+/-- raw structure of a model pointer in the harness's `raw=` format -/
+partial def sddRaw : Sdd.Ptr → String
+  | .tru => "T"
+  | .fls => "F"
+  | .lit v pol => (if pol then "" else "-") ++ toString v
+  | .bdd c l i lo hi => s!"B({if c then 1 else 0}.{l}.{i}.{sddRaw lo}.{sddRaw hi})"
+  | .dec c i es => s!"D({if c then 1 else 0}.{i}.{".".intercalate (es.map fun (p, s) => sddRaw p ++ ":" ++ sddRaw s)})"
+
 def checkSddLine (kvs : List (String × String)) (rhs : String) : String := Id.run do
   let some n := (lookup kvs "n").bind parseNat? | return "FAIL PARSE n"
   let some vt := (lookup kvs "vtree").bind parseVTree | return "FAIL PARSE vtree"
@@ -183,6 +191,9 @@ def checkSddLine (kvs : List (String × String)) (rhs : String) : String := Id.r
       if compress then
         let mp := (Sdd.printCanon p).replace " " "_"
         if mp != s then return s!"FAIL MODEL op#{i} model={mp} impl={s}"
+        -- stored structure: element order and complement bits of every node
+        let rawImpl := (((lookup okv "raw").getD "").splitOn "|").getD i ""
+        if sddRaw p != rawImpl then return s!"FAIL MODEL op#{i} stored structure differs: model={sddRaw p} impl={rawImpl}"
       else
         if Sdd.ttString n p != ttString n (fns.getD i fFalse) then return s!"FAIL MODEL op#{i} (uncompressed) model truth table differs"
   let nt := (impl.filter fun t => match t with | .dec _ es => es.any (fun (p, s) => (match p with | .dec .. => true | _ => false) || (match s with | .dec .. => true | _ => false)) | _ => false).length
